@@ -55,7 +55,9 @@ def l1_oracle(pid, p, impl_lines, run, desc):
             if pid == "C02":
                 got = d.get("arm %s::%s" % (en, v))
                 want = "%s:%s:%s" % (m.name, ",".join(a.name for a in m.args), "to_json_binary+map_err" if kind == "query" else "map_err")
-                if got is not None and got != want:
+                # (an arm whose spelling the canonicaliser does not recognise is not evidence of a violation: it is reported
+                #  as a disagreement with the model; what such an arm does is observed by the compiled corpus)
+                if got is not None and got != want and not got.startswith(("?::unparsed", "<noarm>")):
                     run.oracle_fail("dispatch arm of %s::%s is `%s`, expected `%s`" % (en, v, got, want), desc)
     if pid == "C02" and is_c:
         for kind, sn in (("instantiate", "InstantiateMsg"), ("migrate", "MigrateMsg")):
